@@ -33,8 +33,8 @@ def register(M):
       "candidate_contraction_size assumes every shared index is contracted (wrong for hyper / output indices)",
       ["tests/test_hypergraph.py"])
     M("M_C18_f", ["C18"], "cotengra/pathfinders/path_basic.py",
-      "            self.flops += compute_flops(ilegs, jlegs, self.sizes)",
-      "            self.flops += compute_size(compute_contracted(ilegs, jlegs, self.appearances), self.sizes)",
+      "            self.flops += self.flops_scale * compute_flops(\n                ilegs, jlegs, self.sizes\n            )",
+      "            self.flops += self.flops_scale * compute_size(compute_contracted(ilegs, jlegs, self.appearances), self.sizes)",
       "processor tracks the size of the result instead of the product over the involved indices",
       ["tests/test_paths_basic.py"])
     M("M_C18_g", ["C18"], "cotengra/pathfinders/path_basic.py",
